@@ -108,8 +108,17 @@ For a general description of dotted items (items) and ℇ-moves of items, see:
 */
 func (this *Item) Emoves() (items []*Item) {
 	newItems := util.NewStack(8).Push(this)
+	// A repetition whose body can match the empty string leads back to the same item without
+	// consuming input; every item is expanded once.
+	seen := make(map[string]bool)
 	for newItems.Len() > 0 {
 		item := newItems.Pop().(*Item)
+		if item.hashKey != "" {
+			if seen[item.hashKey] {
+				continue
+			}
+			seen[item.hashKey] = true
+		}
 
 		if item.Reduce() || item.nextIsTerminal() {
 			items = append(items, item)
